@@ -586,6 +586,70 @@ theorem Fresh.after_update {ps : Nat} {devs : List Dev} {fr : List (List Nat)} {
   · exact hne hxe.symm
   · exact hf.notLive (hxe ▸ List.mem_map_of_mem hx')
 
+/-- (F) a page that is neither free nor mapped goes (back) to the free list of the device that contains it
+(the repaired Remap: the replaced page is returned) -/
+theorem PInv.release {ps : Nat} {devs : List Dev} {fr : List (List Nat)} {pt : List Page} {p d : Nat}
+    (h : PInv ps devs fr pt) (hnf : p ∉ fr.flatten) (hnl : p ∉ pt.map (·.paddr)) (hal : ps ∣ p)
+    (hd : devOf devs p = some d) :
+    PInv ps devs (fr.modify d (· ++ [p])) pt := by
+  obtain ⟨dv, hdv, hb, hlt⟩ := devOf_spec hd
+  have hdlt : d < fr.length := by
+    rw [h.len]
+    rcases Nat.lt_or_ge d devs.length with hl | hl
+    · exact hl
+    · simp [List.getElem?_eq_none hl] at hdv
+  have hperm := flatten_modify_perm fr d p hdlt
+  refine ⟨h.pspos, by simp [h.len], h.devAligned, ?_, h.liveNodup, ?_, h.keyNodup, h.palign, h.inDev, ?_⟩
+  · exact (hperm.nodup_iff).mpr (List.nodup_cons.mpr ⟨hnf, h.freeNodup⟩)
+  · intro q hq
+    rcases List.mem_cons.mp (hperm.mem_iff.mp hq) with rfl | hq'
+    · exact hnl
+    · exact h.disj q hq'
+  · intro i fl hi q hq
+    rw [List.getElem?_modify] at hi
+    by_cases hdi : d = i
+    · subst hdi
+      simp only [if_true] at hi
+      cases hfr : fr[d]? with
+      | none => simp [hfr] at hi
+      | some fl0 =>
+        simp [hfr] at hi; subst hi
+        rcases List.mem_append.mp hq with hq | hq
+        · exact h.freeInDev d fl0 hfr q hq
+        · simp at hq; subst hq
+          have hda := h.devAligned dv (List.mem_of_getElem? hdv)
+          exact ⟨hal, dv, hdv, hb, page_inside hal hda.1 hda.2 hb hlt⟩
+    · have hi' : fr[i]? = some fl := by simpa [hdi] using hi
+      exact h.freeInDev i fl hi' q hq
+
+theorem mem_map_upd' {pg : Page} {pt : List Page} {x : Page} (h : x ∈ pt.map (upd pg)) :
+    x = pg ∨ (x ∈ pt ∧ ¬ (x.pid = pg.pid ∧ x.vaddr = pg.vaddr)) := by
+  obtain ⟨q, hq, rfl⟩ := List.mem_map.mp h
+  rcases upd_cases pg q with ⟨h1, _⟩ | ⟨h1, h2⟩
+  · exact Or.inl h1
+  · rw [h1]; exact Or.inr ⟨hq, h2⟩
+
+/-- after an entry has been re-pointed to a fresh page, the page it named before is mapped by no entry -/
+theorem replaced_not_live {ps : Nat} {devs : List Dev} {fr : List (List Nat)} {pt : List Page} {pg e : Page}
+    (h : PInv ps devs fr pt) (he : e ∈ pt) (hk : e.pid = pg.pid ∧ e.vaddr = pg.vaddr)
+    (hnl : pg.paddr ∉ pt.map (·.paddr)) : e.paddr ∉ (pt.map (upd pg)).map (·.paddr) := by
+  intro hm
+  obtain ⟨x, hx, hxe⟩ := List.mem_map.mp hm
+  rcases mem_map_upd' hx with rfl | ⟨hx', hnk⟩
+  · exact hnl (hxe ▸ List.mem_map_of_mem he)
+  · have : x = e := inj_of_nodup_map h.liveNodup hx' he hxe
+    subst this
+    exact hnk hk
+
+/-- a fresh page stays fresh when a page that is not it goes back to a free list -/
+theorem Fresh.after_release {ps : Nat} {devs : List Dev} {fr : List (List Nat)} {pt : List Page} {p q d : Nat}
+    (hf : Fresh ps devs fr pt p) (hne : p ≠ q) (hd : d < fr.length) : Fresh ps devs (fr.modify d (· ++ [q])) pt p := by
+  refine ⟨?_, hf.notLive, hf.aligned, hf.dev⟩
+  intro hm
+  rcases List.mem_cons.mp ((flatten_modify_perm fr d q hd).mem_iff.mp hm) with h1 | h1
+  · exact hne h1
+  · exact hf.notFree h1
+
 /-! ### mirror -/
 
 def agreesB (m : Option Page) (e : Page) : Bool :=
@@ -610,13 +674,6 @@ theorem lookup_mem {α : Type} {l : List (Nat × α)} {k : Nat} {a : α} (h : lo
 
 theorem agreesB_self (pg : Page) : agreesB (some pg) pg = true := by simp [agreesB]
 
-theorem mem_map_upd' {pg : Page} {pt : List Page} {x : Page} (h : x ∈ pt.map (upd pg)) :
-    x = pg ∨ (x ∈ pt ∧ ¬ (x.pid = pg.pid ∧ x.vaddr = pg.vaddr)) := by
-  obtain ⟨q, hq, rfl⟩ := List.mem_map.mp h
-  rcases upd_cases pg q with ⟨h1, _⟩ | ⟨h1, h2⟩
-  · exact Or.inl h1
-  · rw [h1]; exact Or.inr ⟨hq, h2⟩
-
 /-- single PID: pushing `(v, pg)` on the mirror keeps the agreement for entries with another key -/
 theorem mirror_push_other {mirror : List (Nat × Page)} {pg e : Page} {π : Nat}
     (he : agreesB (lookup mirror e.vaddr) e = true) (hpe : e.pid = π) (hpg : pg.pid = π)
@@ -624,5 +681,31 @@ theorem mirror_push_other {mirror : List (Nat × Page)} {pg e : Page} {π : Nat}
     agreesB (lookup ((pg.vaddr, pg) :: mirror) e.vaddr) e = true := by
   have : pg.vaddr ≠ e.vaddr := fun h => hk ⟨hpe.trans hpg.symm, h.symm⟩
   rw [lookup_cons_ne _ _ _ _ this]; exact he
+
+/-! ### weak mirror invariant (any number of processes) -/
+
+def MirrorWeak (mirror : List (Nat × Page)) (pt : List Page) : Prop :=
+  (∀ x ∈ mirror, x.2.vaddr = x.1) ∧
+  (∀ v pg, lookup mirror v = some pg → ∀ e ∈ pt, e.pid = pg.pid → e.vaddr = v → e.paddr = pg.paddr)
+
+theorem MirrorWeak.push_update {m : List (Nat × Page)} {pt : List Page} {pg : Page} {v : Nat}
+    (h : MirrorWeak m pt) (hv : pg.vaddr = v) : MirrorWeak ((v, pg) :: m) (pt.map (upd pg)) := by
+  refine ⟨?_, ?_⟩
+  · intro x hx
+    rcases List.mem_cons.mp hx with rfl | hx
+    · exact hv
+    · exact h.1 x hx
+  · intro v' pg' hl e he hp hv'
+    by_cases hvv : v = v'
+    · subst hvv
+      rw [lookup_cons_eq] at hl
+      injection hl with hl; subst hl
+      rcases mem_map_upd' he with rfl | ⟨_, hk⟩
+      · rfl
+      · exact absurd ⟨hp, hv'.trans hv.symm⟩ hk
+    · rw [lookup_cons_ne _ _ _ _ hvv] at hl
+      rcases mem_map_upd' he with rfl | ⟨he', _⟩
+      · exact absurd (hv.symm.trans hv') hvv
+      · exact h.2 v' pg' hl e he' hp hv'
 
 end C10
